@@ -984,6 +984,51 @@ def _omen_reader_strip(ctx, rule):
     return c07.r5_strip_discipline(ctx, rule, only=c11._OMEN_READERS, floor=4)
 
 
+def r20_omen_config_keys(ctx, rule):
+    """The OMEN config is read under the keys it is written under: every (section, option) _load_config reads is one the
+    trainer's _save_config sets, none is read with a fallback (a misspelt key would silently give the default - seed C10-ca:
+    getint('training_settings', 'ngrams', fallback=4): every ruleset trained with another n-gram size is walked as a 4-gram
+    model), and the n-gram size reaches grammar['ngram'] as an int."""
+    wq = 'lib_trainer/omen/omen_file_output.py::_save_config'
+    rq = 'lib_guesser/omen/input_file_io.py::_load_config'
+    wfn, rfn = ctx.fn(wq), ctx.fn(rq)
+    ctx.stats['functions'].update({wq, rq})
+    written = {(s_, o) for s_, o, v, c in c08.config_writes(wfn) if s_ is not None and o is not None}
+    reads = c08.config_reads(rfn)
+    if not ctx.floor(rule, wq, len(written), 2, 'options written to the OMEN config') or \
+            not ctx.floor(rule, rq, len(reads), 2, 'options read from the OMEN config'):
+        return
+    ok = True
+    for s_, o, getter, node in reads:
+        call = node if isinstance(node, ast.Call) else None
+        if s_ is None or o is None:
+            ok = False
+            ctx.unk(rule, rq, 'config read with a key that is not a constant: ' + U(node)[:70])
+            continue
+        if (s_, o) not in written:
+            ok = False
+            ctx.bad(rule, rq, 'reads [%s] %s' % (s_, o), 'the trainer writes %s: an option it never writes is absent from every ruleset'
+                    % sorted(written), {'written': sorted(written)}, node, firm=True)
+        if call is not None and (any(k.arg == 'fallback' for k in call.keywords) or len(call.args) > 2):
+            ok = False
+            ctx.bad(rule, rq, 'read with a fallback: ' + U(call)[:80], 'a ruleset whose config lacks the option must be refused, not walked '
+                    'with a guessed model parameter', None, node, firm=True)
+    # role: grammar['ngram'] <- getint(.., 'ngram')
+    for st in walk_local(rfn):
+        if isinstance(st, ast.Assign) and len(st.targets) == 1 and isinstance(st.targets[0], ast.Subscript) and const(st.targets[0].slice) == 'ngram':
+            v = st.value
+            if not (isinstance(v, ast.Call) and isinstance(v.func, ast.Attribute) and v.func.attr == 'getint'):
+                if isinstance(v, ast.Call) and isinstance(v.func, ast.Attribute) and v.func.attr in c08.GETTERS:
+                    ok = False
+                    ctx.bad(rule, rq, "grammar['ngram'] = " + U(v)[:70], 'the n-gram size is used in arithmetic and as a slice bound: it must be read as an int',
+                            None, st, firm=True)
+                else:
+                    ok = False
+                    ctx.unk(rule, rq, "grammar['ngram'] is bound to %s - not a config read this rule knows" % U(v)[:60])
+    if ok:
+        ctx.ok(rule, rq, 'the %d options _load_config reads are options _save_config writes, none with a fallback' % len(reads), {'written': sorted(written)})
+
+
 def r19_loaded_model_unfiltered(ctx, rule):
     """The tables the enumeration walks are the tables of the ruleset: load_rules hands `grammar` to the readers and does not
     cut the tables down afterwards (seed C10-o: CP restricted to the prefixes that occur in IP - a transition may lead to an
@@ -1036,7 +1081,7 @@ def r19_loaded_model_unfiltered(ctx, rule):
 
 def rules(tier):
     return [('C10.R1', r1_copy_discipline), ('C10.R2', r2_memo_key), ('C10.R3', r3_sibling_constructions), ('C10.R4', r4_exact_last_transition),
-            ('C10.R5', r5_sibling_cursor_advance), ('C10.R6', r6_model_immutable), ('C10.R7', r7_prune_discipline), ('C10.R8', r8_guess_from_tree), ('C10.R9', r9_level_cursor_domain), ('C10.R10', r10_cache_key_agreement), ('C10.R11', r11_generator_state_per_object), ('C10.R12', r12_hit_implies_stored), ('C10.R13', r13_window_slices), ('C10.R14', r14_zero_budget_is_valid), ('C10.R15', _omen_reader_strip), ('C10.R16', r16_no_shared_defaults), ('C10.R17', _length_domain), ('C10.R18', r18_popped_level_read_once), ('C10.R19', r19_loaded_model_unfiltered)]
+            ('C10.R5', r5_sibling_cursor_advance), ('C10.R6', r6_model_immutable), ('C10.R7', r7_prune_discipline), ('C10.R8', r8_guess_from_tree), ('C10.R9', r9_level_cursor_domain), ('C10.R10', r10_cache_key_agreement), ('C10.R11', r11_generator_state_per_object), ('C10.R12', r12_hit_implies_stored), ('C10.R13', r13_window_slices), ('C10.R14', r14_zero_budget_is_valid), ('C10.R15', _omen_reader_strip), ('C10.R16', r16_no_shared_defaults), ('C10.R17', _length_domain), ('C10.R18', r18_popped_level_read_once), ('C10.R19', r19_loaded_model_unfiltered), ('C10.R20', r20_omen_config_keys)]
 
 
 META = {
